@@ -101,7 +101,7 @@ let handle toks =
          carquet_schema_find_column: exact match of the whole name, first match); an unknown name is COLUMN_NOT_FOUND *)
       let pcols =
         try
-          if proj = "all" then List.mapi (fun i _ -> i) cols
+          if proj = "all" || proj = "i0" || proj = "n0" then List.mapi (fun i _ -> i) cols
           else if String.sub proj 0 2 = "i:" then List.map int_of_string (split_on ',' (String.sub proj 2 (String.length proj - 2)))
           else List.map (fun nm -> index_of nm names 0) (split_on ',' (String.sub proj 2 (String.length proj - 2)))
         with Failure _ -> [-1] in
